@@ -1,6 +1,5 @@
 import TantivyModel.Proofs.Columnar.Mapping
-import TantivyModel.Proofs.Columnar.Range
-import TantivyModel.Proofs.Columnar.Header
+import TantivyModel.Proofs.Columnar.LinearColumn
 import TantivyModel.Proofs.Columnar.Stack
 import TantivyModel.Proofs.Columnar.OptRankSelect
 /-!
@@ -92,17 +91,25 @@ example : (List.range 4).map (linearGet (linearEncWith (Line.train [10, 7, 4, 1]
     (linearEncWith (Line.train [10, 7, 4, 1]) [10, 7, 4, 1]).2.1
     (linearEncWith (Line.train [10, 7, 4, 1]) [10, 7, 4, 1]).2.2) = [10, 7, 4, 1] := by decide
 
-/- Full statement still open (kept visible):
-   theorem C08_blockwise_exact (vals) (hv : ∀ v ∈ vals, v < 2^64) :
-     decodeU64Column (2 :: blockwiseEnc vals) = some vals
-   Proved part below: one 512-row block, with arbitrary bytes following its bit stream. What is
-   missing is the bookkeeping that the shared packer is empty at every block boundary (512·w bits
-   are a multiple of 64) and the footer parsing; both are covered by the cross-decoding run. -/
-/-- one block of the blockwise-linear codec: normalised values `(v − min)/gcd`, offsets to the
-trained line written with the block's maximal `compute_num_bits`, read back exactly — also when
-more bytes (next blocks, footer) follow the byte-aligned stream — and `min + gcd·(eval + off)`
-is the indexed value. -/
-theorem C08_blockwise_exact_partial (s : Stats) (hg : s.gcd ≠ 0) (block : List Nat) (rest : Bytes)
+/-- blockwise-linear codec across blocks and its footer, through the real byte layout: stats
+header; one bit packer shared by all 512-row blocks (empty again at every block boundary because
+512·w bits are whole 64-bit words, so the stream is the concatenation of the blocks' streams and
+block `b` starts at `Σ w·512/8`); per block (VInt slope, VInt intercept, width byte); footer length
+as u32 LE: `load (serialize vals) = vals` for every column of at most `u32::MAX` u64 values. -/
+theorem C08_blockwise_exact (vals : List Nat) (hv : ∀ v ∈ vals, v < 2 ^ 64) (hlen : vals.length < 2 ^ 32) :
+    decodeU64Column (2 :: blockwiseEnc vals) = some vals :=
+  blockwise_column_roundtrip vals hv hlen
+
+/-- the linear codec through its byte layout (stats header, VInt line, width byte, payload), whenever
+it is applicable (at least `LINE_ESTIMATION_BLOCK_LEN` values) -/
+theorem C08_linear_column_roundtrip (vals : List Nat) (hv : ∀ v ∈ vals, v < 2 ^ 64) (hlen : vals.length < 2 ^ 32)
+    (bytes : Bytes) (henc : linearEnc vals = some bytes) : decodeU64Column (1 :: bytes) = some vals :=
+  linear_column_roundtrip vals hv hlen bytes henc
+
+/-- one block of the blockwise-linear codec, for every line: normalised values `(v − min)/gcd`,
+offsets written with the block's maximal `compute_num_bits`, read back exactly also when more bytes
+follow the byte-aligned stream -/
+theorem C08_blockwise_block (s : Stats) (hg : s.gcd ≠ 0) (block : List Nat) (rest : Bytes)
     (hrest : ∀ b ∈ rest, b < 256)
     (hv : ∀ v ∈ block, s.min ≤ v ∧ v < 2 ^ 64 ∧ s.gcd ∣ v - s.min)
     (hfull : 8 ∣ (bwBlockEnc s block).1.width * block.length)
@@ -110,18 +117,24 @@ theorem C08_blockwise_exact_partial (s : Stats) (hg : s.gcd ≠ 0) (block : List
     s.min + (BitVec.ofNat 64 s.gcd * ((bwBlockEnc s block).1.line.eval i + BitVec.ofNat 64
         (unpackGet (bwBlockEnc s block).1.width i
           (pack (bwBlockEnc s block).1.width (bwBlockEnc s block).2 ++ rest)))).toNat = block[i] :=
-  blockwise_block_exact s hg block rest hrest hv hfull i hi
+  blockwise_block_exact s hg block rest hrest hv (Or.inl hfull) i hi
 
 example : decodeU64Column (2 :: blockwiseEnc [100, 103, 109, 106]) = some [100, 103, 109, 106] := by decide
 
-/-- codec choice is irrelevant for the values read: whichever of the bitpacked codec and the linear
-codec (with any estimation line) serialises a column, every row reads back the same value — the
-indexed one. -/
-theorem C08_codec_choice_irrelevant (l : Line) (vals : List Nat) (hv : ∀ v ∈ vals, v < 2 ^ 64) (i : Nat)
-    (hi : i < vals.length) :
-    bitpackedGet (collectStats vals) (bitpackedPayload (collectStats vals) vals) i
-      = linearGet (linearEncWith l vals).1 (linearEncWith l vals).2.1 (linearEncWith l vals).2.2 i := by
-  rw [C08_bitpacked_exact vals hv i hi, C08_linear_exact l vals hv i hi]
+/-- codec choice is irrelevant: whichever codec `serialize_u64_based_column_values` picks among the
+applicable ones (any estimate, any codec list), loading the bytes gives the indexed values — all
+three serialized forms decode to the same column. -/
+theorem C08_codec_choice_irrelevant (vals : List Nat) (hv : ∀ v ∈ vals, v < 2 ^ 64) (hlen : vals.length < 2 ^ 32)
+    (codec : Nat) (bytes : Bytes) (henc : encodeU64Column codec vals = some bytes) :
+    decodeU64Column bytes = some vals := by
+  unfold encodeU64Column at henc
+  split at henc
+  · cases henc; exact bitpacked_column_roundtrip vals hv hlen
+  · cases h : linearEnc vals with
+    | none => rw [h] at henc; cases henc
+    | some b => rw [h] at henc; cases henc; exact linear_column_roundtrip vals hv hlen b h
+  · cases henc; exact blockwise_column_roundtrip vals hv hlen
+  · cases henc
 
 /-! ## optional index -/
 
